@@ -229,3 +229,9 @@ pub fn big_integers_all(cx: &RunCtx, kinds: &[Kind]) {
 pub fn big_integers_one<D: Dom>(cx: &RunCtx, kinds: &[Kind]) {
     big_integers_dom::<D>(cx, kinds);
 }
+
+/// refmodel::families::idioms: multi-node idioms a fusing evaluator could compute through one library call
+pub fn idioms<D: Dom>(cx: &RunCtx, kinds: &[Kind]) {
+    let inputs = refmodel::families::idioms(D::EV);
+    run_list::<D>(cx, "E-FAM multi-node idioms (hypot, fma, expm1, ln_1p, atan2, algebraic simplifications) x awkward operands", &inputs, &[D::default_at()], kinds);
+}
